@@ -137,7 +137,10 @@ def _request_records_once(rep, repo, st):
     # next() ran may be an orphan by the time the hit is added (the request would be counted nowhere)
     readers = [s_ for s_ in [stmt_of(st, add)] + add_via[id(add)]
                if any(isinstance(x, ast.Attribute) and x.attr == 'route_hits' for x in diffcon._header_nodes(s_))]
-    early = [s_ for s_ in readers if not cfg.must_pass(next_nodes, cfg.entry, cfg.nodes_of(s_))]
+    # (early: next() can still run once the table was fetched, or -- where only next() and explicit raises are taken to raise,
+    # the assumption stated above -- the fetch can be reached without next() having run at all)
+    early = [s_ for s_ in readers if set(next_nodes) & cfg.reach(cfg.nodes_of(s_)) or
+             not cfg.must_pass(next_nodes, cfg.entry, cfg.nodes_of(s_), normal_only=True, exc_from=set(next_nodes))]
     rep.check('R19.a', fkey(rq, 'table looked up after next()'), bool(readers) and not early,
               'self.route_hits is read after next() returned/raised, where the hit is recorded' if readers and not early else
               'self.route_hits is captured before next() runs (%s): a reset() during the request leaves the hit in an orphaned table'
@@ -520,17 +523,58 @@ def _reservoir_rest(rep, repo, st):
         ok = rets_it and all(isinstance(r.value, ast.Call) and call_name(r.value) == 'iter' and len(r.value.args) == 1
                              and over(r.value.args[0], r) for r in rets_it)
     rep.check('R19.c', fkey(it), bool(ok), 'iteration is over _data' if ok else 'iteration is not over _data', st, it.node)
-    # subclass delegates exactly once
-    sub = st.func('RouteStatReservoir.add')
-    cfg_s = cfg_of(sub)
-    bases = set(c.name if hasattr(c, 'name') else str(c) for c in repo.mro(sub.cls)[1:]) if sub.cls is not None else set()
-    selfname = sub.node.args.args[0].arg if sub.node.args.args else 'self'
-    sup = [stmt_of(st, c) for c in walk_body(sub.node) if isinstance(c, ast.Call) and call_tail(c) == 'add' and isinstance(c.func, ast.Attribute)
-           and ((isinstance(c.func.value, ast.Call) and call_name(c.func.value) == 'super') or
-                (isinstance(c.func.value, ast.Name) and c.func.value.id in bases and c.args and norm(c.args[0]) == selfname))]
-    ok, why = _exactly_once(cfg_s, cfg_s.nodes_of_all(sup), [cfg_s.entry], [cfg_s.exit])
-    rep.check('R19.c', fkey(sub, 'super().add'), ok, 'RouteStatReservoir.add delegates to Reservoir.add exactly once' if ok else
-              'RouteStatReservoir.add: ' + why, st, sub.node)
+    # one add() on the subclass is exactly one activation of the base add (the counting / sampling judged above): the subclass
+    # inherits it, or its override delegates exactly once; and no method that activation dispatches to on ``self`` (a hook the
+    # subclass overrides -- resolved on the class of the receiver, not on the class the call is written in) enters add again
+    sub_cls = st.cls('RouteStatReservoir')
+    base_add = st.func('Reservoir.add')
+    sub = repo.find_method(sub_cls, 'add')
+    if sub is None or sub.mod.external:
+        raise AnalysisError('RouteStatReservoir: no add() found along its bases')
+    repo.functions_touched.add(sub.key)
+    base_names = set(c.name for c in repo.mro(sub_cls)[1:] if hasattr(c, 'name'))
+
+    def add_entries(fi):
+        """calls in ``fi`` that run an add() on the same object: self.add(..) / super().add(..) / Base.add(self, ..)"""
+        sn = _self_name(fi)
+        out = []
+        for c in walk_body(fi.node):
+            if isinstance(c, ast.Call) and call_tail(c) == 'add' and isinstance(c.func, ast.Attribute):
+                r = c.func.value
+                if (isinstance(r, ast.Call) and call_name(r) == 'super') or (isinstance(r, ast.Name) and r.id == sn and sn) or \
+                        (isinstance(r, ast.Name) and r.id in base_names | {sub_cls.name} and c.args and norm(c.args[0]) == sn):
+                    out.append(c)
+        return out
+    if sub is base_add:
+        rep.check('R19.c', fkey(sub, 'super().add'), True, 'RouteStatReservoir inherits Reservoir.add: one add() is one activation of it', st, sub.node)
+    else:
+        cfg_s = cfg_of(sub)
+        selfname = _self_name(sub) or 'self'
+        sup = [stmt_of(st, c) for c in add_entries(sub) if not (isinstance(c.func.value, ast.Name) and c.func.value.id == selfname)]
+        again = [c for c in add_entries(sub) if isinstance(c.func.value, ast.Name) and c.func.value.id == selfname]
+        ok, why = _exactly_once(cfg_s, cfg_s.nodes_of_all(sup), [cfg_s.entry], [cfg_s.exit])
+        if ok and again:
+            ok, why = False, 'it calls %s on itself' % short(again[0])
+        rep.check('R19.c', fkey(sub, 'super().add'), ok, 'RouteStatReservoir.add delegates to Reservoir.add exactly once' if ok else
+                  'RouteStatReservoir.add: ' + why, st, sub.node)
+    # the methods the activation dispatches to on the receiver itself
+    hooks, todo = [], [base_add] + ([sub] if sub is not base_add else [])
+    while todo:
+        fi = todo.pop()
+        sn = _self_name(fi)
+        for c in walk_body(fi.node):
+            if isinstance(c, ast.Call) and isinstance(c.func, ast.Attribute) and isinstance(c.func.value, ast.Name) and c.func.value.id == sn \
+                    and sn and c.func.attr != 'add':
+                h = repo.find_method(sub_cls, c.func.attr)
+                if h is not None and not h.mod.external and not any(h is x for x in hooks) and len(hooks) < 12:
+                    hooks.append(h)
+                    todo.append(h)
+    for h in hooks:
+        re_entry = add_entries(h)
+        rep.check('R19.c', fkey(h, 'does not enter add() again'), not re_entry,
+                  '%s (run by add() on the receiver) does not enter add() again' % h.qualname if not re_entry else
+                  '%s is run by add() on the receiver and enters add() again (%s): one add() counts / stores more than once'
+                  % (h.qualname, short(re_entry[0])), st, (re_entry or [h.node])[0])
 
 
 # ---- R19.d ---------------------------------------------------------------------------------------------------------
@@ -685,9 +729,28 @@ def _report_reads_running_instance(rep, repo, st):
                 last = v.right if isinstance(v, ast.BinOp) and isinstance(v.op, ast.Add) else v
                 if isinstance(last, (ast.List, ast.Tuple)) and last.elts and isinstance(last.elts[-1], ast.Name):
                     apps.append(last.elts[-1].id)
-    provider = [n for f in route.functions.values() for n in ast.walk(f.node) if isinstance(n, ast.Dict)
-                for k, v in zip(n.keys, n.values) if isinstance(k, ast.Constant) and k.value == APP_PARAM and norm(v) == 'self.bound_apps[-1]']
-    if len(apps) != 1 or not provider:
+    # every place in the route module where a mapping gets an entry under that name -- a dict display, a keyword
+    # of dict(..) / .update(..), a store ``d['_application'] = v`` (the injectables may be assembled in a helper method)
+    provided = []
+    for f in route.functions.values():
+        Lf = None
+        for n in ast.walk(f.node):
+            vals = []
+            if isinstance(n, ast.Dict):
+                vals = [v for k, v in zip(n.keys, n.values) if isinstance(k, ast.Constant) and k.value == APP_PARAM]
+            elif isinstance(n, ast.Call) and (call_name(n) == 'dict' or call_tail(n) in ('update', 'setdefault')):
+                vals = [k.value for k in n.keywords if k.arg == APP_PARAM]
+                if call_tail(n) == 'setdefault' and len(n.args) == 2 and isinstance(n.args[0], ast.Constant) and n.args[0].value == APP_PARAM:
+                    vals.append(n.args[1])
+            elif isinstance(n, ast.Assign):
+                vals = [n.value for t in n.targets if isinstance(t, ast.Subscript) and isinstance(t.slice, ast.Constant) and t.slice.value == APP_PARAM]
+            for v in vals:
+                s_ = stmt_of(route, v)
+                if Lf is None:
+                    Lf = diffcon.Locals(f.node, cfg_of(f))
+                provided.append(norm(Lf.resolve(v, s_)) if s_ is not None and cfg_of(f).nodes_of(s_) else norm(v))
+    provider = [t for t in provided if t == 'self.bound_apps[-1]']
+    if len(apps) != 1 or not provider or len(provider) != len(provided):
         raise AnalysisError("clastic.route: cannot see that '%s' is the application a route was bound to last (self.bound_apps[-1])" % APP_PARAM)
     app_p = apps[0]
     if app_p not in levels or len([l for l in levels if l is not None]) != len(levels):
